@@ -281,3 +281,20 @@ Example keys_distinct_nontrivial :
     (map (fun s => {| rid := [s]; rscore := s mod 3; rkeys := [score_sort_value; [s]] |})
          [1;2;3;4;5;6;7;8;9;10;11;12;13]).
 Proof. apply keys_distinctb_sound. vm_compute. reflexivity. Qed.
+
+(* ---------------------------------------------------------------- the heap store is a priority queue *)
+
+(* not a trusted abstraction: Push and Pop of the transcribed container/heap keep the heap order and
+   the elements, Pop hands back an element no other sorts after, and the fuel never runs out *)
+Theorem heap_store_is_pq so :
+  (forall d h, heap_ok (collector_cmp so) h ->
+     exists h', heap_push (collector_cmp so) d h = Some h' /\ heap_ok (collector_cmp so) h' /\
+                Permutation h' (d :: h)) /\
+  (forall h, heap_ok (collector_cmp so) h -> h <> [] ->
+     exists x h', heap_pop (collector_cmp so) h = Some (x, h') /\ heap_ok (collector_cmp so) h' /\
+                  Permutation (x :: h') h /\ forall y, In y h' -> collector_cmp so y x <= 0).
+Proof.
+  split.
+  - intros d h H. apply (heap_push_correct (collector_cmp so) (ccmp_anti so) (ccmp_le_trans so) (ccmp_eq_hit so)). exact H.
+  - intros h H Hne. apply (heap_pop_correct (collector_cmp so) (ccmp_anti so) (ccmp_le_trans so) (ccmp_eq_hit so)); assumption.
+Qed.
